@@ -74,3 +74,31 @@ func VerifC03Dedicated() {
 		verifReach("error")
 	}
 }
+
+// VerifC03EncryptedBound: on an encrypted server that is bound to an interface prefix,
+// a request without any device identifier stays anonymous: the server's local address
+// (a dedicated address of some device or not) and the client's address are no
+// identification channels there.
+//
+//verif:harness name=H03h-encrypted-bound tier=quick,thorough bounds="DoT, DoQ or DoH server bound to 192.0.2.0/24; local address symbolic inside the prefix; linked IP on/off; request without identifier (no userinfo, plain path, foreign or absent TLS server name); the database would find a device for every lookup" reach=done maxpaths=20000
+func VerifC03EncryptedBound() {
+	proto := []agd.Protocol{agd.ProtoDoT, agd.ProtoDoQ, agd.ProtoDoH}[verifChoice(3)]
+	srv := &agd.Server{Protocol: proto, LinkedIPEnabled: nondetBool()}
+	srv.SetBindData([]*agd.ServerBindData{{PrefixAddr: &agdnet.PrefixNetAddr{Prefix: netip.MustParsePrefix("192.0.2.0/24"), Net: "tcp", Port: 853}}})
+	dev := &agd.Device{ID: "thedev01", Auth: &agd.AuthSettings{}}
+	prof := &agd.Profile{ID: "prof1234"}
+	db := &verifDB{prof: prof, dev: dev, noNil: true}
+	f := NewDefault(&Config{Logger: slogutil.NewDiscardLogger(), ProfileDB: db, HumanIDParser: agd.NewHumanIDParser(), Server: srv, DeviceDomains: []string{"d.example"}})
+	laddr := netip.AddrPortFrom(netip.AddrFrom4([4]byte{192, 0, 2, nondetU8()}), 853)
+	raddr := netip.MustParseAddrPort("198.51.100.7:4321")
+	req := &dns.Msg{}
+	req.SetQuestion("example.org.", dns.TypeA)
+	ri := &dnsserver.RequestInfo{URL: &url.URL{Path: "/dns-query"}}
+	if verifChoice(2) == 1 {
+		ri.TLSServerName = "dns.other.example"
+	}
+	r := f.Find(dnsserver.ContextWithRequestInfo(context.Background(), ri), req, raddr, laddr)
+	verifAssert("no-identifier-no-lookup-on-encrypted-servers", db.calls == 0 && !db.byDedic && !db.byLinked && db.byDevID == "")
+	verifAssert("request-without-identifier-is-anonymous", r == nil)
+	verifReach("done")
+}
